@@ -1,4 +1,5 @@
 import XsgModel.Driver.Other
+import XsgModel.Driver.Deser
 open Xsg Xsg.Proto Xsg.Driver
 
 def handleLine (line : String) : String :=
@@ -35,6 +36,10 @@ def handleLine (line : String) : String :=
   | "D" :: id :: prop :: rest =>
     match handleD prop rest with
     | some v => s!"{id} {prop} {v.render}"
+    | none => s!"{id} {prop} BAD unparsable-case"
+  | "E" :: id :: prop :: rest =>
+    match handleE rest with
+    | some (v, info) => s!"{id} {prop} {v.render}\n{id}.info {prop} GEN {info.compared} {info.skipped} {info.rejected}"
     | none => s!"{id} {prop} BAD unparsable-case"
   | "P" :: id :: prop :: rest =>
     match handleP rest with
